@@ -125,7 +125,7 @@ def _times(case):
     return np.array([s * NS for s in case["time"]], dtype="int64").astype("datetime64[ns]")
 
 
-WINDOW_FORMS = ("datetime", "iso", "utc", "timestamp", "dt64")
+WINDOW_FORMS = ("datetime", "iso", "utc", "timestamp", "dt64", "iso_z", "utc_timestamp", "offset", "iso_offset")
 
 
 def _bound(s, form="datetime"):
@@ -139,6 +139,15 @@ def _bound(s, form="datetime"):
         return d.isoformat()
     if form == "utc":
         return d.replace(tzinfo=dt.timezone.utc)
+    if form == "iso_z":                       # JSON / quoted YAML text with the Z designator
+        return d.isoformat() + "Z"
+    if form == "utc_timestamp":
+        import pandas as pd
+        return pd.Timestamp(d, tz="UTC")
+    if form in ("offset", "iso_offset"):      # the same instant written in another zone (+05:30)
+        tz = dt.timezone(dt.timedelta(hours=5, minutes=30))
+        loc = d.replace(tzinfo=dt.timezone.utc).astimezone(tz)
+        return loc if form == "offset" else loc.isoformat()
     if form == "timestamp":
         import pandas as pd
         return pd.Timestamp(d)
@@ -208,6 +217,8 @@ def run_frontend(case):
         for name, col in case["cols"]:
             d[name] = _vals(col)
         df = pd.DataFrame(d, index=case["index"])
+        if has_t and case.get("time_tz"):         # the same instants in a timezone-aware column
+            df[nm["time"]] = pd.DatetimeIndex(_times(case)).tz_localize("UTC").tz_convert(case["time_tz"])
         return list(PandasStream(df, **named).run(cfg))
     if fe == "numpy":
         kw = {"inp": {name: _vals(col) for name, col in case["cols"]}}
@@ -473,6 +484,8 @@ def gen_stream(tier, rng, frontends=("pandas", "numpy", "netcdf", "xarray"), fau
             if fe != "numpy" and rng.random() < 0.3:
                 # the user's own column / variable names for the axes, told to the constructor
                 cases[-1]["axis_names"] = {"time": "obs_t", "z": "depth_m", "lat": "y_deg", "lon": "x_deg"}
+            if fe == "pandas" and has_time and n and rng.random() < 0.2 and all(t is not None for t in time):
+                cases[-1]["time_tz"] = rng.choice(["UTC", "Asia/Karachi", "America/St_Johns"])
             if len(cfg) == 1 and rng.random() < 0.5:
                 cases[-1]["layout"] = rng.choice(["single", "bare"])
             if faults and rng.random() < 0.4:
